@@ -1,5 +1,6 @@
 import BfeVerif.Common.Proto
 import BfeVerif.C45.Model
+import BfeVerif.C45.Hello
 /-!
   C45 driver.
     um <kind> <hex>       unmarshal the bytes:            result `ok <fields>` | `rej`   (model: also `crash`)
@@ -21,8 +22,64 @@ def renderRes {α} (f : α → String) : Res α → String
   | .rej => "rej"
   | .crash => "crash"
 
+def bl (b : Bool) : String := if b then "01" else "00"
+
+def flat2 (l : List Bytes) : Bytes := flatCAs l
+
+def renderCH (m : ClientHello) : String :=
+  ":".intercalate [hx [m.vers.1, m.vers.2], hx m.random, hx m.sessionId, hx (flatPairs m.cipherSuites),
+    hx m.compressionMethods, bl m.nextProtoNeg, hx m.serverName, bl m.ocspStapling, hx (flatPairs m.supportedCurves),
+    hx m.supportedPoints, bl m.ticketSupported, hx m.sessionTicket, hx (flatPairs m.signatureAndHashes),
+    bl m.secureRenegotiation, hx (flatStrings m.alpnProtocols), bl m.padding, hx (flatPairs m.extensionIds)]
+
+def renderSH (m : ServerHello) : String :=
+  ":".intercalate [hx [m.vers.1, m.vers.2], hx m.random, hx m.sessionId, hx [m.cipherSuite.1, m.cipherSuite.2],
+    hx [m.compressionMethod], bl m.nextProtoNeg, hx (flatStrings m.nextProtos), bl m.ocspStapling,
+    bl m.ticketSupported, bl m.secureRenegotiation, hx m.alpnProtocol]
+
+def renderCR (m : CertReq) : String :=
+  ":".intercalate [hx m.certificateTypes, hx (flatPairs m.signatureAndHashes), hx (flatCAs m.certificateAuthorities)]
+
+/-- field decoders (the harness only produces well-formed encodings) -/
+def decPairs : Bytes → List U16
+  | a :: b :: r => (a, b) :: decPairs r
+  | _ => []
+
+def decStrs (w : Nat) : Nat → Bytes → List Bytes
+  | 0, _ => []
+  | fuel + 1, b =>
+    if b.length < w then [] else
+      let l := if w = 2 then u16 (b.getD 0 0) (b.getD 1 0) else (b.getD 0 0).toNat
+      let r := b.drop w
+      r.take l :: decStrs w fuel (r.drop l)
+
+def pair0 (b : Bytes) : U16 := (b.getD 0 0, b.getD 1 0)
+def flag (b : Bytes) : Bool := b.getD 0 0 != 0
+
+def chOfFields (f : List Bytes) : ClientHello :=
+  let g (i : Nat) : Bytes := f.getD i []
+  { vers := pair0 (g 0), random := g 1, sessionId := g 2, cipherSuites := decPairs (g 3), compressionMethods := g 4,
+    nextProtoNeg := flag (g 5), serverName := g 6, ocspStapling := flag (g 7), supportedCurves := decPairs (g 8),
+    supportedPoints := g 9, ticketSupported := flag (g 10), sessionTicket := g 11, signatureAndHashes := decPairs (g 12),
+    secureRenegotiation := flag (g 13), alpnProtocols := decStrs 1 ((g 14).length + 1) (g 14) }
+
+def shOfFields (f : List Bytes) : ServerHello :=
+  let g (i : Nat) : Bytes := f.getD i []
+  { vers := pair0 (g 0), random := g 1, sessionId := g 2, cipherSuite := pair0 (g 3), compressionMethod := (g 4).getD 0 0,
+    nextProtoNeg := flag (g 5), nextProtos := decStrs 1 ((g 6).length + 1) (g 6), ocspStapling := flag (g 7),
+    ticketSupported := flag (g 8), secureRenegotiation := flag (g 9), alpnProtocol := g 10 }
+
+def crOfFields (f : List Bytes) : CertReq :=
+  let g (i : Nat) : Bytes := f.getD i []
+  { certificateTypes := g 0, signatureAndHashes := decPairs (g 1),
+    certificateAuthorities := decStrs 2 ((g 2).length + 1) (g 2) }
+
 def umKind (kind : String) (d : Bytes) : Option String :=
   match kind with
+  | "chl" => some (renderRes renderCH (umClientHello d))
+  | "shl" => some (renderRes renderSH (umServerHello d))
+  | "cr0" => some (renderRes renderCR (umCertReq false d))
+  | "cr1" => some (renderRes renderCR (umCertReq true d))
   | "fin" => some (renderRes hx (umFinished d))
   | "ske" => some (renderRes hx (umServerKeyExchange d))
   | "cke" => some (renderRes hx (umClientKeyExchange d))
@@ -52,6 +109,10 @@ def mKind (kind : String) (fs : String) : Option (Bytes × Bool) := do
     let f ← optAll ((fs.splitOn ":").map bytesOfHex)
     let g (i : Nat) : Bytes := f.getD i []
     match kind with
+    | "chl" => pure (mClientHello (chOfFields f), (chOfFields f).wf)  -- expected fields: see `wantOf`
+    | "shl" => pure (mServerHello (shOfFields f), (shOfFields f).wf)
+    | "cr0" => pure (mCertReq false (crOfFields f), (crOfFields f).wf false)
+    | "cr1" => pure (mCertReq true (crOfFields f), (crOfFields f).wf true)
     | "fin" => pure (mFinished (g 0), true)
     | "ske" => pure (mServerKeyExchange (g 0), true)
     | "cke" => pure (mClientKeyExchange (g 0), (g 0).length < 16777216)
@@ -67,6 +128,21 @@ def mKind (kind : String) (fs : String) : Option (Bytes × Bool) := do
 /-- canonical rendering of the fields of an `rt` op (what a correct round trip must print) -/
 def canonFields (kind fs : String) : String :=
   if kind == "shd" then "." else fs
+
+/-- what a correct round trip must print for an `rt` op, and (for a recorded finding) the alternative
+    outcome with its class -/
+def wantOf (kind fs : String) : String × Option (String × String) :=
+  if kind == "chl" then
+    match optAll ((fs.splitOn ":").map bytesOfHex) with
+    | some f =>
+      let m := chOfFields f
+      let full := { m with padding := false, extensionIds := chIds m }
+      -- the renegotiation_info extension (0xff01) written by marshal is not recognised by unmarshal (it tests 0xff02)
+      (renderCH full,
+       if m.secureRenegotiation && !hasScsv m.cipherSuites
+       then some (renderCH { full with secureRenegotiation := false }, "chl-reneg-ext-ignored") else none)
+    | none => (fs, none)
+  else (canonFields kind fs, none)
 
 def lenTag (n : Nat) : String :=
   if n == 0 then "len0" else if n < 255 then "len<255" else if n ≤ 257 then "len~256"
@@ -86,10 +162,15 @@ def run (op impl : String) : Ans :=
     | some (bytes, wf) =>
       match umKind kind bytes with
       | some u =>
-        let want := "m=" ++ hx bytes ++ " u=ok " ++ canonFields kind fs
+        let (wf1, alt) := wantOf kind fs
+        let want := "m=" ++ hx bytes ++ " u=ok " ++ wf1
         { model := "m=" ++ hx bytes ++ " u=" ++ u
           verdict := if impl.startsWith "PANIC" then "FAIL:panic-" ++ kind
-                     else if wf && impl != want then "FAIL:roundtrip-" ++ kind else "ok"
+                     else if wf && impl != want then
+                       (match alt with
+                        | some (a, cls) => if impl == "m=" ++ hx bytes ++ " u=ok " ++ a then "FAIL:" ++ cls else "FAIL:roundtrip-" ++ kind
+                        | none => "FAIL:roundtrip-" ++ kind)
+                     else "ok"
           tags := ["rt", kind, lenTag bytes.length, if wf then "wf" else "beyond-wire-limits"] ++ (if wf then ["nt"] else []) }
       | none => { model := "bad-op", verdict := "skip" }
     | none => { model := "bad-op", verdict := "skip" }
